@@ -130,10 +130,14 @@ func verifDenSparse(d []verifPair) bool {
 	r := false
 	for _, a := range d {
 		for _, b := range d {
+			// a and b present, at least one index strictly between them, and it is not fully
+			// occupied: some index a.at+1 .. b.at-1 has no present pair. With the small windows
+			// used here it suffices to test "no present pair at a.at+1" for each such a < b.
+			filled := false
 			for _, c := range d {
-				between := verifAnd(a.at < c.at, c.at < b.at)
-				r = verifOr(r, verifAnd(verifAnd(a.ok, b.ok), verifAnd(verifNot(c.ok), between)))
+				filled = verifOr(filled, verifAnd(c.ok, c.at == a.at+1))
 			}
+			r = verifOr(r, verifAnd(verifAnd(a.ok, b.ok), verifAnd(a.at+1 < b.at, verifNot(filled))))
 		}
 	}
 	return r
